@@ -288,6 +288,9 @@ pub struct Ctx {
     deadline: Option<Instant>,
     replay_key: Option<String>,
     pub workers: usize,
+    /// If set, every worker thread runs its cases inside its own rayon pool of that many
+    /// threads (so `par_iter`s of the subject neither share one global pool nor oversubscribe).
+    pub worker_rayon_threads: Option<usize>,
 
     evaluations: u64,
     distinct_nontrivial: u64,
@@ -387,6 +390,7 @@ impl Ctx {
             deadline: Some(start + Duration::from_secs(budget)),
             replay_key,
             workers: std::thread::available_parallelism().map(|n| n.get()).unwrap_or(8).min(16),
+            worker_rayon_threads: None,
             evaluations: 0,
             distinct_nontrivial: 0,
             seen_keys: HashSet::new(),
@@ -547,22 +551,33 @@ impl Ctx {
         let deadline = if self.is_replay() { None } else { self.deadline };
         let capped = AtomicBool::new(false);
         let workers = workers.max(1).min(n.max(1));
+        let pool_threads = self.worker_rayon_threads;
         std::thread::scope(|scope| {
             for _ in 0..workers {
-                scope.spawn(|| loop {
-                    let i = cursor.fetch_add(1, Ordering::SeqCst);
-                    if i >= n {
-                        break;
-                    }
-                    if let Some(d) = deadline {
-                        if Instant::now() > d {
-                            capped.store(true, Ordering::SeqCst);
+                scope.spawn(|| {
+                    let body = || loop {
+                        let i = cursor.fetch_add(1, Ordering::SeqCst);
+                        if i >= n {
                             break;
                         }
+                        if let Some(d) = deadline {
+                            if Instant::now() > d {
+                                capped.store(true, Ordering::SeqCst);
+                                break;
+                            }
+                        }
+                        let case = &cases[selected[i]].1;
+                        let r = catch(|| f(case));
+                        *results[i].lock().unwrap() = Some(r);
+                    };
+                    match pool_threads {
+                        Some(t) => rayon::ThreadPoolBuilder::new()
+                            .num_threads(t)
+                            .build()
+                            .expect("rayon pool")
+                            .install(body),
+                        None => body(),
                     }
-                    let case = &cases[selected[i]].1;
-                    let r = catch(|| f(case));
-                    *results[i].lock().unwrap() = Some(r);
                 });
             }
         });
@@ -584,7 +599,10 @@ impl Ctx {
                     done += 1;
                     // re-execute once before believing a violation
                     if !out.viols.is_empty() {
-                        let again = catch(|| f(&cases[idx].1));
+                        let again = match pool_threads {
+                            Some(t) => in_pool(t, || catch(|| f(&cases[idx].1))),
+                            None => catch(|| f(&cases[idx].1)),
+                        };
                         let same = match &again {
                             Ok(o2) => {
                                 let a: BTreeSet<_> =
